@@ -25,7 +25,7 @@ PROP_MODULES = {
     'C01': ['props.step'] + _DEP, 'C02': ['props.step'] + _DEP, 'C03': ['props.c03'] + _DEP, 'C04': ['props.step'] + _DEP,
     'C05': ['props.c05'] + _DEP, 'C06': ['props.step'] + _DEP, 'C07': ['props.step'] + _DEP, 'C08': ['props.c08'] + _DEP,
     'C09': ['props.step'] + _DEP, 'C10': ['props.c10', 'props.c17'], 'C11': ['props.c11'] + _DEP, 'C12': ['props.c12'] + _DEP,
-    'C13': ['props.c13'], 'C14': ['props.c14'], 'C16': ['props.c16'], 'C17': ['props.c17'], 'C18': ['props.step'] + _DEP, 'C19': ['props.step'] + _DEP,
+    'C13': ['props.c13'], 'C20': ['props.c20'] + _DEP, 'C14': ['props.c14'], 'C16': ['props.c16'], 'C17': ['props.c17'], 'C18': ['props.step'] + _DEP, 'C19': ['props.step'] + _DEP,
 }
 
 REPLAY_PY = os.environ.get('VERIF_REPLAY_PYTHON', '/venv/bin/python')
@@ -278,11 +278,13 @@ def cmd_check(prop, tier, jobs, only=None):
                     faults.append((r['uid'], 'CONTRACT-MISMATCH (sidecar contract disagrees with the body; the contract must be corrected): %s\n%s' % (ob['label'], out)))
                 elif rep is True:
                     violations.append((u, ob, path, out))
-                elif rep is False and u.meta.get('inductive'):
+                elif rep is False and (u.meta.get('inductive') or ob['kind'] in ('frame.own',)):
                     # counter-model of an inductive obligation: an arbitrary loop state, not necessarily one a whole
                     # execution reaches; the obligation itself is what failed
-                    nofail.append((r['uid'], 'inductive obligation %s/%s fails (solver counter-model is an intermediate loop state; '
-                                   'whole-instruction replay of it did not misbehave)\n%s' % (ob['kind'], ob['label'], out[-1500:]), path))
+                    nofail.append((r['uid'], 'obligation %s/%s fails (%s)\n%s' % (
+                        ob['kind'], ob['label'], 'a frame/ownership condition: no single run exhibits it' if ob['kind'] == 'frame.own' else
+                        'inductive: the solver counter-model is an intermediate loop state; the whole-instruction replay of it did not misbehave',
+                        out[-1500:]), path))
                 elif rep is False:
                     faults.append((r['uid'], 'ENGINE-MISMATCH: solver model for %s/%s does not reproduce natively\n%s' % (
                         ob['kind'], ob['label'], out)))
